@@ -528,11 +528,15 @@ static int worker_main(Harness& hs, Kernel& k, const BatchOpts& o, long w) {
         k.sh->scratch[14] = HANG_CONFIRM_FACTOR; RunResult g3 = k.execute(plan); k.sh->scratch[14] = 0;
         if (!Kernel::has_cls(g3, cls)) { slow_not_hung = true; stats["kit.slow_plan_completes_with_larger_budget"]++; }
       }
-      if (slow_not_hung) continue;
-      if (v.monitor == "hang" && (!Kernel::has_cls(g1, cls) || !Kernel::has_cls(g2, cls))) {
+      if (v.monitor == "hang" && !slow_not_hung && (!Kernel::has_cls(g1, cls) || !Kernel::has_cls(g2, cls))) {
         // a plan that exceeded its CPU budget once and completes when re-executed is a slow plan at the edge of
         // the budget, not a hang: counted, not reported
         stats["kit.slow_plan_near_budget"]++;
+        slow_not_hung = true;
+      }
+      if (slow_not_hung) {
+        // not a violation: recorded as such (one judgement per class and batch: each costs minutes)
+        fprintf(res, "VR\t%s\tslow\t-\t%s\n", cls.c_str(), v.detail.c_str());
         continue;
       }
       if (!Kernel::has_cls(g1, cls) || !Kernel::has_cls(g2, cls) || (v.monitor != "hang" && (g1.h != g2.h || g1.h != rr.h))) {
